@@ -12,18 +12,13 @@ Proof. exact bstore_offset_in. Qed.
 Print Assumptions safe_offset_storage.
 
 Theorem safe_scalar_access : forall n b bo nbits,
-  bstore_in n b -> bo <> NullBO -> 0 < nbits -> bitblock_ok b bo nbits = true ->
+  bstore_in n b -> 0 < nbits -> bitblock_ok b bo nbits = true ->
   match touched b nbits with
   | Some (lo, hi) => 0 <= lo /\ hi <= n /\ lo < hi
   | None => False
   end.
 Proof. exact bitblock_ok_in_bounds. Qed.
 Print Assumptions safe_scalar_access.
-
-Theorem safe_scalar_access_refuted_null_order :
-  exists n b nbits, bstore_in n b /\ 0 < nbits /\ bitblock_ok b NullBO nbits = true /\
-                    match touched b nbits with Some (lo, hi) => n < hi | None => False end.
-Proof. exact bitblock_ok_in_bounds_refuted_null_order. Qed.
 
 Theorem safe_bit_access : forall s off size,
   bits_in s -> 0 <= off -> 0 <= size -> storage_ok (get_offset s off size) = true ->
